@@ -492,4 +492,130 @@ example : uadmT spec (fun v => v % 2) init
      .read ⟨"segments", "_segments", true, false⟩, .setNodes 6 0, .copy, .pickle] := by
   simp [uadmT, UAdmT, ustep, uprims]; decide
 
+/-! ### Final pass: every `TEMP_ATTR` view, nesting of locked calls, pickling, copying -/
+
+/-- Every cached view of the generated spec — graphs, segments, geodesic matrix, cable length, adjacency **and
+the simplified skeleton `_simple`** — carries the staleness wrapper and is registered in `TEMP_ATTR`. -/
+theorem every_cached_view_wrapped_and_registered :
+    ∀ v ∈ spec.views, v.wrapped = true ∧ v.attr ∈ spec.tempAttr := by decide
+
+/-- **Freshness for every `TEMP_ATTR` view**: after any admissible history that leaves the neuron unlocked, the
+next read of *any* cached view of the spec (not only the seven named in the statement: also `simple`) returns
+the view of the current content. -/
+theorem every_view_fresh_after_any_history (es : List Ev) (ha : admAll spec init es = true)
+    (hl : (run spec init es).lock = 0) (v : View) (hv : v ∈ spec.views) :
+    readTag spec (run spec init es) v = some (run spec init es).ver :=
+  never_returns_older_value es ha hl v (by
+    simp only [wrappedViews, List.mem_filter]
+    exact ⟨hv, (every_cached_view_wrapped_and_registered v hv).1⟩)
+
+/-- … and so does every read in a whole *sequence* of reads of cached views: after any number of earlier reads
+(which warm or rebuild caches but never change the table) the next read still returns the current content, and the
+neuron is still unlocked with the invariant intact. -/
+theorem read_after_reads_current (s : St) (h : J spec s) (hl : s.lock = 0) (vs : List View)
+    (hvs : ∀ v ∈ vs, v ∈ spec.views) (v : View) (hv : v ∈ spec.views) :
+    readTag spec (readsS spec s vs) v = some s.ver ∧ J spec (readsS spec s vs) ∧ (readsS spec s vs).lock = 0 := by
+  have hw : ∀ w ∈ spec.views, w.wrapped = true := fun w hw => (every_cached_view_wrapped_and_registered w hw).1
+  obtain ⟨j, l, e⟩ := J_readsS (sound_facts spec_sound) vs h hl (fun w hw' => ⟨hvs w hw', hw w (hvs w hw')⟩)
+  refine ⟨?_, j, l⟩
+  rw [← e]
+  exact (read_current (sound_facts spec_sound) j l (hw v hv)).1
+
+/-- **Lock-free user histories: entries and `type` column together.**  After any sequence of reads, direct edits
+(also back to earlier content), table replacements, validated in-place arithmetic, copies and pickling: if the
+stamp is current, every cache entry was computed from the current content *and* leafs / branch points / roots are
+those of the current table. -/
+theorem user_history_fresh_and_typed (τ : Nat → Nat) (h0 : τ 0 = 0) (us : List UEv) (hu : ∀ u ∈ us, UAdm spec u)
+    (ht : uadmT spec τ init us) :
+    let s := urun spec init us
+    Inv s ∧ (s.md5 = s.ver → s.typeVer = s.tver) :=
+  ⟨edit_undo_fresh us hu, (type_fresh_all_histories τ h0 us ht).2.2⟩
+
+/-- A `@lock_neuron` call nested inside a locked function skips the entry check (the staleness wrapper and the
+entry check are both disabled while the lock is held) … -/
+theorem nested_call_skips_entry_check (s : St) (hl : 0 < s.lock) : lockEntryPrims spec s = [] :=
+  lockEntryPrims_locked spec hl
+
+/-- … **nesting is balanced**: an outer locked call whose body contains a complete inner locked call (each of
+them returning or raising, any lock-neutral events before, inside and after) leaves the lock counter where it
+was — so an unlocked neuron is unlocked again and `read_returns_current` applies. -/
+theorem nested_locked_calls_release_lock (s : St) (pre inner post : List Ev)
+    (hpre : ∀ e ∈ pre, lockNeutral e = true) (hin : ∀ e ∈ inner, lockNeutral e = true)
+    (hpost : ∀ e ∈ post, lockNeutral e = true) (ri ro : Bool) :
+    let s1 := run spec s (lockEntryPrims spec s ++ [Ev.lock] ++ pre)
+    (run spec s (lockedCall spec s (pre ++ lockedCall spec s1 inner ri ++ post) ro)).lock = s.lock :=
+  nested_lockedCall_lock (by decide) s pre inner post hpre hin hpost ri ro
+
+/-- … and a read of a cached view inside the *inner* call (entered while the outer call holds the lock, before any
+change) still returns a value computed from the content at the entry of the OUTER call. -/
+theorem nested_locked_read_returns_entry_content (s : St) (h : J spec s) (hl : s.lock = 0) (vs : List View) (v : View) :
+    let s1 := readsS spec (run spec s (lockEntryPrims spec s ++ [Ev.lock])) vs
+    readTag spec (run spec s1 (lockEntryPrims spec s1 ++ [Ev.lock])) v = some s.ver := by
+  intro s1
+  obtain ⟨a, b, c, _⟩ := lock_entry_establishes s h hl
+  have h0 : AllCur (run spec s (lockEntryPrims spec s ++ [Ev.lock])) s.ver := ⟨a, by rw [b]; decide, c⟩
+  have h1 : AllCur s1 s.ver := locked_reads vs h0
+  have e : run spec s1 (lockEntryPrims spec s1 ++ [Ev.lock]) = step spec s1 .lock := by
+    rw [lockEntryPrims_locked spec h1.locked]; rfl
+  rw [e]
+  exact (locked_read (AllCur_lock (sp := spec) h1) v).1
+
+/-- **Unpickling**: the round trip drops exactly the entries `__getstate__` pops (the two graphs): none of them is
+present afterwards, so the next read rebuilds them from the table that was pickled … -/
+theorem unpickled_has_no_graphs (s : St) : ∀ a ∈ spec.getstateDrops, has (pickleS spec s) a = false :=
+  fun _ ha => has_pickleS_drop spec s ha
+
+/-- … and content, stamp and staleness flag travel unchanged. -/
+theorem unpickled_keeps_stamp (s : St) :
+    (pickleS spec s).ver = s.ver ∧ (pickleS spec s).md5 = s.md5 ∧ (pickleS spec s).stale = s.stale ∧
+    (pickleS spec s).typeVer = s.typeVer := ⟨rfl, rfl, rfl, rfl⟩
+
+/-- **Copying a neuron that is not stale** carries cache entries and stamp over unchanged (only the lock counter
+is reset): together with `copy_of_stale_is_clean` this is the whole behaviour of `copy`. -/
+theorem copy_of_current_carries_cache (s : St) (hst : (isStaleS spec s).stale = false) :
+    (copyS spec s).cache = s.cache ∧ (copyS spec s).md5 = s.md5 ∧ (copyS spec s).ver = s.ver ∧ (copyS spec s).lock = 0 := by
+  rw [copyS_not_stale spec hst]
+  have hn : "_lock" ∈ spec.copyNoCopy := by decide
+  simp [unlocked, hn]
+
+/-- **After any sequence of catalogue operations** (any call sites of the generated table, in place or on the
+result of a copy, with or without their explicit clear, locked or not, any reads under the lock and any graphs
+carried over): the invariant holds — by induction over the list of operations. -/
+theorem any_sequence_of_operations_preserves : ∀ (os : List OpCall) (s : St), J spec s → opsAdm spec s os →
+    J spec (opsRun spec s os) ∧ Inv (opsRun spec s os) := by
+  intro os
+  induction os with
+  | nil => intro s h _; exact ⟨h, h.inv⟩
+  | cons o os ih =>
+    intro s h ha
+    obtain ⟨⟨hc, hpre, hpost, hv⟩, hrest⟩ := ha
+    exact ih _ (operation_preserves o.c hc s h o.pre o.post hpre hpost o.v o.t hv o.withClear) hrest
+
+/-- The source-level checker `soundB` is **complete** as well as sound: it accepts exactly the specs that satisfy
+the six obligations (registered attributes, no retaining `exclude`, shapes of `is_stale` / clear / wrapper). -/
+theorem soundB_iff (sp : Spec) : soundB sp = true ↔ SoundFacts sp :=
+  ⟨fun h => sound_facts h, soundB_complete⟩
+
+/-- … and so is the aliasing checker: `aliasSafeB` accepts exactly the specs in which every in-place editor of an
+object that copies share detaches first. -/
+theorem aliasSafeB_iff (sp : Spec) :
+    aliasSafeB sp = true ↔ ∀ e ∈ sp.editors, (sp.sharedOnCopy.contains e.attr = true → e.detaches = true) :=
+  ⟨fun h => aliasSafe_facts h, aliasSafeB_complete⟩
+
+-- non-vacuity of `any_sequence_of_operations_preserves`: reroot (locked, keeps the igraph it edited), then `x *= 2`
+example : opsAdm spec init
+    [⟨⟨"graph.graph_utils.reroot_skeleton", ["igraph", "classify_nodes"], true⟩, [⟨"igraph", "_igraph", true, false⟩],
+      [⟨"igraph", "_igraph", true, false⟩], 1, 1, true⟩,
+     ⟨⟨"core.skeleton.TreeNeuron.__mul__", ["classify_nodes"], false⟩, [], [], 2, 1, true⟩] := by
+  refine ⟨⟨by decide, by decide, by decide, by decide⟩, ⟨by decide, by decide, by decide, by decide⟩, trivial⟩
+
+-- non-vacuity: a nested call on a concrete state; the hypotheses of `nested_locked_read_returns_entry_content`
+example : let s := run spec init [.write "_graph_nx", .change 1 1]
+    let s1 := readsS spec (run spec s (lockEntryPrims spec s ++ [Ev.lock])) [⟨"igraph", "_igraph", true, false⟩]
+    s1.lock = 1 ∧ readTag spec (run spec s1 (lockEntryPrims spec s1 ++ [Ev.lock])) ⟨"graph", "_graph_nx", true, false⟩ = some 1 := by
+  decide
+example : (run spec init (lockedCall spec init ([.write "_igraph"] ++ lockedCall spec
+    (run spec init (lockEntryPrims spec init ++ [Ev.lock] ++ [.write "_igraph"])) [.classify] false ++ [.change 1 1]) true)).lock = 0 := by
+  decide
+
 end Navis.Props.C02
